@@ -5,7 +5,7 @@ from . import base
 from . import C07
 from .C09 import tree_paths
 
-THEOREMS = ['C19_deepcopy_same_explicit', 'C19_deepcopy_content', 'C19_deepcopy_exact']
+THEOREMS = ['C19_deepcopy_same_explicit', 'C19_deepcopy_content', 'C19_deepcopy_exact', 'C19_parsed_document_copy_exact', 'C19_parsed_document_copy_interchangeable']
 EXPLICIT = ['priority', 'delete', 'allow_new', 'safe', 'default_safe', 'metadata', 'source_file', 'idx']
 IMPLICIT = ['implicit_delete', 'implicit_allow_new', 'implicit_safe']
 
